@@ -845,7 +845,7 @@ def oracle_pred(ctx):
 
         # ---- (b) rejection beyond the 1e-6 band
         def rej(pred, kind, got, *inputs):
-            expect(f'oracle:reject:{pred}:{kind}', f"{pred} accepts a value whose defect ({kind}) exceeds 1e-6", got, False, *inputs, names=kind)
+            expect(f'oracle:reject:{pred}:{kind}', f"{pred} accepts an invalid value ({kind}; defect beyond the 1e-6 band, or a corrupted last row)", got, False, *inputs, names=kind)
 
         R = bad_rot(rng, 3, 'NotOrtho')
         R2 = bad_rot(rng, 2, 'NotOrtho')
